@@ -452,6 +452,12 @@ func (g *fsGen) next() string {
 		return pre + fmt.Sprintf("truncate %s %d", h(g.path()), lib.Pick(r, []int{0, 1, 3, 20, -1}))
 	case 16:
 		if g.opts.kernel { // set-id bits have kernel rules of their own (inheritance, cleared by chown): not part of C01
+			if g.opts.users && r.Bool(25) {
+				// restricted deletion: the sticky bit on a directory others may write to
+				if d, ok := g.pickExisting("dir"); ok {
+					return pre + fmt.Sprintf("chmod %s %d", h(d), lib.Pick(r, []int{0o1777, 0o1775, 0o1755}))
+				}
+			}
 			return pre + fmt.Sprintf("chmod %s %d", h(g.path()), lib.Pick(r, createPerms))
 		}
 		return pre + fmt.Sprintf("chmod %s %d", h(g.path()), lib.Pick(r, perms))
